@@ -582,7 +582,9 @@ def compare_topo(sph, site, triad, p, v, where, factor=1.0):
         eldot=abs(got[5] - eldot),
     )
     worst = 0.0
-    for k in ("r", "az", "el", "rdot", "azdot", "eldot"):
+    # within 1e-6 rad of the vertical the azimuth (and everything divided by cos el) is undefined: outside
+    names = ("r", "el", "rdot") if math.cos(el) < 1e-6 else ("r", "az", "el", "rdot", "azdot", "eldot")
+    for k in names:
         worst = max(worst, errs[k] / tol[k])
         if errs[k] > tol[k]:
             want = dict(r=rng, az=az, el=el, rdot=rdot, azdot=azdot, eldot=eldot)[k]
